@@ -7,19 +7,15 @@
    dealer sampled), as revealed by the code's DealAndRevealDealerFunc. *)
 From Coq Require Import List NArith ZArith Bool Arith.
 Import ListNotations.
-Require Import V.base.Fld V.model.LinAlg V.model.Access V.model.Msp.
+Require Import V.base.Fld V.model.LinAlg V.model.Poly V.model.Interp V.model.Access V.model.Msp.
 
 Section Schemes.
 Context {F : Type} (K : fops F) (fromN : N -> F).
 
 Definition fsum (l : list F) : F := fold_left (fadd K) l (f0 K).
 
-(* Polynomial.Eval: Horner from the leading coefficient *)
-Definition poly_eval (cs : list F) (x : F) : F :=
-  match rev cs with
-  | [] => f0 K
-  | lead :: rest => fold_left (fun out c => fadd K (fmul K out x) c) rest lead
-  end.
+(* Polynomial.Eval: Horner from the leading coefficient — model/Poly.v (C20) *)
+Definition poly_eval (cs : list F) (x : F) : F := peval K cs x.
 
 (* Degree(): index of the last non-zero coefficient; represented as 1 + degree (0 for the zero polynomial) *)
 Fixpoint degree1 (cs : list F) : nat :=
@@ -38,18 +34,8 @@ Definition poly_deriv (cs : list F) : list F :=
   | S (S d) => map (fun i => fmul K (fromN (N.of_nat i)) (nth i cs (f0 K))) (seq 1 (S d))
   end.
 
-(* lagrange.BasisAt(xs, at): Π_{j≠i} (at - x_j) / (x_i - x_j); a zero denominator is an error *)
-Definition lagrange_basis_at (xs : list F) (at_ : F) : option (list F) :=
-  let ixs := combine (seq 0 (length xs)) xs in
-  fold_right (fun ixi acc =>
-      let num := fold_left (fun a jxj => if Nat.eqb (fst ixi) (fst jxj) then a
-                                         else fmul K a (fsub K at_ (snd jxj))) ixs (f1 K) in
-      let den := fold_left (fun a jxj => if Nat.eqb (fst ixi) (fst jxj) then a
-                                         else fmul K a (fsub K (snd ixi) (snd jxj))) ixs (f1 K) in
-      match acc with
-      | None => None
-      | Some l => if fis0 K den then None else Some (fdiv K num den :: l)
-      end) (Some []) ixs.
+(* lagrange.BasisAt(xs, at): Π_{j≠i} (at - x_j) / (x_i - x_j); a zero denominator is an error — model/Interp.v (C20) *)
+Definition lagrange_basis_at (xs : list F) (at_ : F) : option (list F) := basis_at K xs at_.
 
 (* ---- Shamir -------------------------------------------------------------------------------------- *)
 
@@ -140,9 +126,11 @@ Definition isn_reconstruct (p : policy) (mus : list (list N)) (shares : list isn
   | Some chunks => Some (fsum (map snd chunks))
   end.
 
-(* Share.ToAdditive(quorum): the chunks whose pivot (smallest quorum member outside the set) is the holder *)
+(* Share.ToAdditive(quorum): the chunks whose pivot (smallest quorum member outside the set) is the holder.
+   A share with an empty chunk map makes the code index an empty slice (run-time panic): None here *)
 Definition isn_to_additive (mus : list (list N)) (sh : isn_share) (quorum : list N) : option F :=
   if negb (memN (fst sh) quorum) then None else
+  match snd sh with [] => None | _ =>
   let sq := sortN (nodupN quorum) in
   fold_left (fun acc kv =>
     match acc with
@@ -152,7 +140,8 @@ Definition isn_to_additive (mus : list (list N)) (sh : isn_share) (quorum : list
       | None => None
       | Some p => if N.eqb p (fst sh) then Some (fadd K v (snd kv)) else Some v
       end
-    end) (snd sh) (Some (f0 K)).
+    end) (snd sh) (Some (f0 K))
+  end.
 
 (* ---- Tassa (hierarchical, Birkhoff interpolation) --------------------------------------------------- *)
 
